@@ -182,7 +182,7 @@ func runC14(c *core.Ctx) error {
 	c.Logf("TLC simulation: %d states checked, %d distinct schemas in %d strata (%v)", sim.Generated, nSim, len(strata), sim.Wall)
 
 	// 3. choose the stimuli
-	want := c.Pick(100, 2000)
+	want := c.Pick(300, 2400)
 	var stims []*c14Stim
 	rng.Shuffle(len(exhStims), func(i, j int) { exhStims[i], exhStims[j] = exhStims[j], exhStims[i] })
 	rng.Shuffle(len(catStims), func(i, j int) { catStims[i], catStims[j] = catStims[j], catStims[i] })
@@ -336,6 +336,23 @@ func runC14(c *core.Ctx) error {
 	c.Logf("generator accepted %d, rejected %d; %v", accepted, rejected, agree)
 
 	// 6. accepted => go build ./... of the output succeeds (one module, batched)
+	// generation is cheap, compiling is not: all rejected stimuli are judged above; of the accepted ones the
+	// catalogue/exhaustive ones and a coverage-driven selection (every shape, every option row, every
+	// shape x option-row pair first, then seeded random) are compiled
+	acceptedAll := len(toBuild)
+	toBuild = c14SelectBuilds(toBuild, c.Pick(60, 700), rng)
+	c.Set("accepted_selected_for_build", len(toBuild))
+	c.Set("accepted_not_compiled", acceptedAll-len(toBuild))
+	kindCover = map[string]int{}
+	builtByOpt := map[string]int{}
+	for _, s := range toBuild {
+		builtByOpt[s.M.Opt]++
+		for _, k := range kindsOf(&s.M) {
+			kindCover[k]++
+		}
+	}
+	c.Set("accepted_shape_coverage", kindCover)
+	c.Set("built_by_option_row", builtByOpt)
 	failing, err := c14Build(c, mod, toBuild)
 	if err != nil {
 		return err
@@ -378,7 +395,7 @@ func runC14(c *core.Ctx) error {
 		return fmt.Errorf("vacuous: no stimulus was rejected")
 	}
 	for o := range c14OptRows {
-		if byOpt[o] == 0 {
+		if builtByOpt[o] == 0 {
 			return fmt.Errorf("vacuous: option row %q never exercised", o)
 		}
 	}
@@ -410,6 +427,64 @@ func runC14(c *core.Ctx) error {
 	c.Assume("'the generated code compiles' is decided by the Go compiler, not by the specification; the model's Accepted predicate is used only as a vacuity guard and reported as an agreement matrix")
 	c.Assume("TL2-origin schemas are not part of this stimulus space (TL1 schemas, optionally with TL2 code generation via --tl2WhiteList)")
 	return nil
+}
+
+// c14SelectBuilds orders accepted stimuli so that new coverage comes first and cuts at max.
+func c14SelectBuilds(all []*c14Stim, max int, rng *rand.Rand) []*c14Stim {
+	if len(all) <= max {
+		return all
+	}
+	var sel, rest []*c14Stim
+	for _, s := range all {
+		if s.Src == "catalogue" {
+			sel = append(sel, s)
+		} else {
+			rest = append(rest, s)
+		}
+	}
+	rng.Shuffle(len(rest), func(i, j int) { rest[i], rest[j] = rest[j], rest[i] })
+	covered := map[string]int{}
+	feats := func(s *c14Stim) []string {
+		f := []string{"o:" + s.M.Opt, "src:" + s.Src}
+		for _, k := range kindsOf(&s.M) {
+			f = append(f, k, k+"|"+s.M.Opt)
+		}
+		return f
+	}
+	for _, s := range sel {
+		for _, f := range feats(s) {
+			covered[f]++
+		}
+	}
+	used := make([]bool, len(rest))
+	for len(sel) < max {
+		best, bestGain := -1, -1
+		for i, s := range rest {
+			if used[i] {
+				continue
+			}
+			gain := 0
+			for _, f := range feats(s) {
+				if covered[f] == 0 {
+					gain += 3
+				} else if covered[f] < 3 {
+					gain++
+				}
+			}
+			if gain > bestGain {
+				best, bestGain = i, gain
+			}
+		}
+		if best < 0 {
+			break
+		}
+		used[best] = true
+		sel = append(sel, rest[best])
+		for _, f := range feats(rest[best]) {
+			covered[f]++
+		}
+	}
+	return sel
 }
 
 var reMethodColl = regexp.MustCompile(`field and method with the same name (\w+)|item\.(\w+) \((?:neither addressable|value of type func)`)
